@@ -111,10 +111,11 @@ func encodeList(typ []byte, hdr []byte, size int, sigs [][2][]byte) []byte {
 }
 
 var (
-	tX509    = wireGUID(signature.CERT_X509_GUID)
-	tSHA256  = wireGUID(signature.CERT_SHA256_GUID)
-	tSHA1    = wireGUID(signature.CERT_SHA1_GUID)
-	tEXT     = wireGUID(signature.CERT_EXTERNAL_MANAGEMENT_GUID)
+	// signature type GUIDs in wire form, written out from UEFI 2.8 section 32.4.1 (not taken from the code under test)
+	tX509    = unhx("a159c0a5e494a74a87b5ab155c2bf072")
+	tSHA256  = unhx("2616c4c14c509240aca941f936934328")
+	tSHA1    = unhx("12a56c8210cfc94ab187be01496631bd")
+	tEXT     = unhx("ed8c2e45ffdf8c4bae015118862e682c")
 	tUnknown = []byte{0xde, 0xad, 0xbe, 0xef, 1, 2, 3, 4, 5, 6, 7, 8, 9, 10, 11, 12}
 )
 
